@@ -380,11 +380,11 @@ Ltac nsolve :=
 
 Lemma up_cases c : up c = c \/ (97 <= c <= 122 /\ up c = c - 32).
 Proof.
-  unfold up. destruct (97 <=? c) eqn:A; destruct (c <=? 122) eqn:B; simpl; auto. right. nsolve. split; [lia|reflexivity]. Show.
+  unfold up. destruct (97 <=? c) eqn:A; destruct (c <=? 122) eqn:B; simpl; auto. right. nsolve.
 Qed.
 Lemma low_cases c : low c = c \/ (65 <= c <= 90 /\ low c = c + 32).
 Proof.
-  unfold low. destruct (65 <=? c) eqn:A; destruct (c <=? 90) eqn:B; simpl; auto. right. nsolve. split; [lia|reflexivity].
+  unfold low. destruct (65 <=? c) eqn:A; destruct (c <=? 90) eqn:B; simpl; auto. right. nsolve.
 Qed.
 
 Lemma eqb_of_ne a b : a <> b -> (a =? b) = false.
@@ -470,3 +470,510 @@ Theorem no_injection_plain_data : forall fuel data p out st',
   exec true fuel {| st_scopes := []; st_locals := []; st_globals := data; st_cycle := 0 |} p = Ok (out, st') ->
   no_raw out = true.
 Proof. intros. eapply no_injection; eauto. apply plain_data_inv. assumption. Qed.
+
+(* ---------------------------------------------------------------- second clause: every ampersand starts an entity *)
+Lemma amp_scan_seen_irrelevant s : forall a b, amp_scan false a s = amp_scan false b s.
+Proof. destruct s; reflexivity. Qed.
+
+(* a text that scans to the end closes every reference it opens; what follows is scanned from the idle state *)
+Lemma amp_scan_app b : forall a r sn, amp_scan r sn a = true -> amp_scan r sn (a ++ b) = amp_scan false false b.
+Proof.
+  induction a as [|c a IH]; intros r sn H; simpl in *.
+  - destruct r; [discriminate|]. apply amp_scan_seen_irrelevant.
+  - destruct r.
+    + destruct (c =? 59).
+      * apply andb_true_iff in H. destruct H as [-> H]. simpl. apply IH. exact H.
+      * destruct (is_ref_char c); [apply IH; exact H|discriminate].
+    + destruct (c =? 38); apply IH; exact H.
+Qed.
+
+Lemma amp_ok_app a b : amp_ok a = true -> amp_ok b = true -> amp_ok (a ++ b) = true.
+Proof. unfold amp_ok. intros Ha Hb. rewrite (amp_scan_app b a false false Ha). exact Hb. Qed.
+
+Lemma amp_ok_escape s : amp_ok (escape s) = true.
+Proof.
+  induction s as [|c r IH]; [reflexivity|]. unfold escape in *. cbn [flat_map]. apply amp_ok_app; [|exact IH].
+  unfold escape_char.
+  destruct (c =? 38) eqn:E1; [reflexivity|]. destruct (c =? 60) eqn:E2; [reflexivity|].
+  destruct (c =? 62) eqn:E3; [reflexivity|]. destruct (c =? 39) eqn:E4; [reflexivity|].
+  destruct (c =? 34) eqn:E5; [reflexivity|]. unfold amp_ok. simpl. rewrite E1. reflexivity.
+Qed.
+
+(* a function on characters that keeps the classes the scanner looks at keeps the verdict *)
+Lemma amp_scan_map f : (forall c, (f c =? 59) = (c =? 59) /\ (f c =? 38) = (c =? 38) /\ is_ref_char (f c) = is_ref_char c) ->
+  forall s r sn, amp_scan r sn (map f s) = amp_scan r sn s.
+Proof.
+  intro Hf. induction s as [|c s IH]; intros r sn; simpl; auto.
+  destruct (Hf c) as (E1 & E2 & E3). rewrite E1, E2, E3.
+  destruct r; [destruct (c =? 59); [rewrite IH; reflexivity|destruct (is_ref_char c); auto]|destruct (c =? 38); auto].
+Qed.
+
+Lemma is_ref_char_spec c : is_ref_char c = true <->
+  (48 <= c <= 57 \/ 65 <= c <= 90 \/ 97 <= c <= 122 \/ c = 35).
+Proof.
+  unfold is_ref_char, is_digit. rewrite !orb_true_iff, !andb_true_iff, !N.leb_le, N.eqb_eq. tauto.
+Qed.
+
+Lemma bool_eq_iff (a b : bool) : (a = true <-> b = true) -> a = b.
+Proof. destruct a, b; intuition congruence. Qed.
+
+Lemma up_keeps_classes c : (up c =? 59) = (c =? 59) /\ (up c =? 38) = (c =? 38) /\ is_ref_char (up c) = is_ref_char c.
+Proof.
+  destruct (up_cases c) as [->|[Hr ->]]; [auto|].
+  repeat split.
+  - rewrite !eqb_of_ne by lia. reflexivity.
+  - rewrite !eqb_of_ne by lia. reflexivity.
+  - apply bool_eq_iff. rewrite !is_ref_char_spec. lia.
+Qed.
+Lemma low_keeps_classes c : (low c =? 59) = (c =? 59) /\ (low c =? 38) = (c =? 38) /\ is_ref_char (low c) = is_ref_char c.
+Proof.
+  destruct (low_cases c) as [->|[Hr ->]]; [auto|].
+  repeat split.
+  - rewrite !eqb_of_ne by lia. reflexivity.
+  - rewrite !eqb_of_ne by lia. reflexivity.
+  - apply bool_eq_iff. rewrite !is_ref_char_spec. lia.
+Qed.
+Lemma plus_keeps_classes c :
+  let f := fun c => if c =? 43 then 32 else c in
+  (f c =? 59) = (c =? 59) /\ (f c =? 38) = (c =? 38) /\ is_ref_char (f c) = is_ref_char c.
+Proof.
+  simpl. destruct (c =? 43) eqn:E; [|auto]. apply N.eqb_eq in E. subst. repeat split; reflexivity.
+Qed.
+
+(* a text without ampersand passes *)
+Lemma amp_ok_no_amp s : forallb (fun c => negb (c =? 38)) s = true -> amp_ok s = true.
+Proof.
+  unfold amp_ok. induction s as [|c r IH]; simpl; auto. intro H. apply andb_true_iff in H. destruct H as [Hc Hr].
+  destruct (c =? 38); [discriminate|]. apply IH. exact Hr.
+Qed.
+
+Definition wf_text (t : str) : Prop := no_raw t = true /\ amp_ok t = true.
+Definition wf_lit (t : str) : bool := no_raw t && amp_ok t.
+
+(* the filters that neither cut nor edit a string *)
+Definition keeps_entities (f : filter) : bool :=
+  match f with
+  | FEscape | FEscapeOnce | FUpcase | FDowncase | FAppend _ | FPrepend _ | FJoin _ | FFirst | FLast | FDefault _ | FSize | FOpaque _ _ => true
+  | _ => false
+  end.
+
+Lemma digit_not_amp c : is_digit c = true -> negb (c =? 38) = true.
+Proof. unfold is_digit. intro H. apply andb_true_iff in H. destruct H as [A B]. nsolve. rewrite eqb_of_ne by lia. reflexivity. Qed.
+
+(* C05, both clauses, for templates that use no cutting or editing filter: the output holds no raw < > quote and every
+   ampersand in it starts an entity (partial: slice, split, replace, remove, strip and capitalize are excluded) *)
+Theorem entities_partial : forall fuel st p out st',
+  forallb (stmt_ok wf_lit keeps_entities) p = true ->
+  state_inv wf_text st ->
+  exec true fuel st p = Ok (out, st') -> no_raw out = true /\ amp_ok out = true.
+Proof.
+  intros fuel st p out st' Hp Hst H.
+  eapply (exec_inv wf_text wf_lit keeps_entities); try eassumption.
+  - split; reflexivity.
+  - intros a b [A1 A2] [B1 B2]. split; [unfold no_raw in *; rewrite forallb_app, A1, B1; reflexivity|apply amp_ok_app; assumption].
+  - intro t. split; [apply escape_no_raw|apply amp_ok_escape].
+  - intros t Ht. unfold wf_lit in Ht. apply andb_true_iff in Ht. exact Ht.
+  - intro n. split; [apply allP_nat_to_str; apply digit_not_raw|].
+    apply amp_ok_no_amp. apply (allP_nat_to_str (fun c => negb (c =? 38))). apply digit_not_amp.
+  - split; reflexivity.
+  - intros f Hf. destruct f; try discriminate Hf; simpl; auto.
+    + intros t [A B]. split; [apply allP_map; auto; apply not_raw_up|]. unfold amp_ok. rewrite amp_scan_map; [exact B|apply up_keeps_classes].
+    + intros t [A B]. split; [apply allP_map; auto; apply not_raw_low|]. unfold amp_ok. rewrite amp_scan_map; [exact B|apply low_keeps_classes].
+    + destruct k; auto. intros t [A B]. split.
+      * apply allP_map; auto. intros c Hc. destruct (c =? 43); auto.
+      * unfold amp_ok, plus_to_space. rewrite amp_scan_map; [exact B|]. intro c. apply plus_keeps_classes.
+Qed.
+
+(* ... and the second clause is false as soon as a cutting filter is allowed: the witnesses of DESIGN section 7 row 19 *)
+Definition x_data : list (str * value) := [([120], VS (plain [60; 97; 38; 98; 62]))].     (* x = <a&b> *)
+Definition out_of (p : list stmt) : option str :=
+  run_escape {| e_ae := true; e_data := x_data; e_prog := p |}.
+Definition xvar : expr := EAtom (AVar [120]).
+
+Lemma entities_refuted :
+  (* escape | slice: 0, 2  gives  &l *)
+  out_of [SOut (EFilt (EFilt xvar FEscape) (FSlice 0 2))] = Some [38; 108] /\
+  (* escape | split: l | join: -  gives  &-t;a&amp;b&gt; *)
+  out_of [SOut (EFilt (EFilt (EFilt xvar FEscape) (FSplit (ALit [108]))) (FJoin (Some (ALit [45]))))]
+    = Some [38; 45; 116; 59; 97; 38; 97; 109; 112; 59; 98; 38; 103; 116; 59] /\
+  (* escape | remove: lt  gives  &;a&amp;b&gt; *)
+  out_of [SOut (EFilt (EFilt xvar FEscape) (FRemove (ALit [108; 116])))]
+    = Some [38; 59; 97; 38; 97; 109; 112; 59; 98; 38; 103; 116; 59] /\
+  amp_ok [38; 108] = false /\ amp_ok [38; 45; 116; 59] = false /\ amp_ok [38; 59; 97] = false /\
+  (* none of them holds a raw special character *)
+  no_raw [38; 108] = true.
+Proof. repeat split; vm_compute; reflexivity. Qed.
+
+(* ---------------------------------------------------------------- values marked safe pass unchanged *)
+Theorem safe_passthrough : forall fuel st x t,
+  lookup st x = VS (markup t) ->
+  exec true (S (S fuel)) st [SOut (EAtom (AVar x))] = Ok (t, st).
+Proof.
+  intros fuel st x t H. cbn [exec bind]. unfold eval. cbn [eval_expr eval_atom]. rewrite H.
+  cbn [to_liquid_string out_str esc_arg markup sf tx]. rewrite app_nil_r. reflexivity.
+Qed.
+
+Lemma out_str_safe l : forallb sf l = true -> map (out_str true) l = map tx l.
+Proof.
+  induction l as [|s r IH]; simpl; auto. intro H. apply andb_true_iff in H. destruct H as [Hs Hr].
+  unfold out_str at 1, esc_arg. rewrite Hs. f_equal. apply IH. exact Hr.
+Qed.
+
+(* ... also as items of an array *)
+Theorem safe_list_passthrough : forall fuel st x l,
+  lookup st x = VL l -> forallb sf l = true ->
+  exec true (S (S fuel)) st [SOut (EAtom (AVar x))] = Ok (concat (map tx l), st).
+Proof.
+  intros fuel st x l H Hl. cbn [exec bind]. unfold eval. cbn [eval_expr eval_atom]. rewrite H.
+  cbn [to_liquid_string]. rewrite app_nil_r. rewrite out_str_safe by assumption. reflexivity.
+Qed.
+
+(* ---------------------------------------------------------------- third clause: without special characters autoescape changes nothing *)
+Definition clean_c (c : N) : bool := negb (is_special c).
+Definition clean (t : str) : bool := allP clean_c t.
+
+Lemma clean_c_cases c : clean_c c = true -> (c =? 38) = false /\ (c =? 60) = false /\ (c =? 62) = false /\ (c =? 39) = false /\ (c =? 34) = false.
+Proof.
+  unfold clean_c, is_special, is_raw. intro H. apply negb_true_iff in H. repeat (apply orb_false_iff in H; destruct H as [H ?]). auto.
+Qed.
+
+Lemma escape_clean t : clean t = true -> escape t = t.
+Proof.
+  induction t as [|c r IH]; simpl; auto. intro H. apply andb_true_iff in H. destruct H as [Hc Hr].
+  destruct (clean_c_cases c Hc) as (A & B & C & D & E). unfold escape_char. rewrite A, B, C, D, E. simpl. f_equal. apply IH. exact Hr.
+Qed.
+Lemma html_escape_clean t : clean t = true -> html_escape t = t.
+Proof.
+  induction t as [|c r IH]; simpl; auto. intro H. apply andb_true_iff in H. destruct H as [Hc Hr].
+  destruct (clean_c_cases c Hc) as (A & B & C & D & E). unfold html_escape_char. rewrite A, B, C, E, D. simpl. f_equal. apply IH. exact Hr.
+Qed.
+Lemma unescape_go_clean : forall fuel t, clean t = true -> unescape_go fuel t = t.
+Proof.
+  induction fuel as [|f IH]; intros t H; simpl; auto. destruct t as [|c r]; auto.
+  simpl in H. apply andb_true_iff in H. destruct H as [Hc Hr]. destruct (clean_c_cases c Hc) as (A & _). rewrite A. f_equal. apply IH. exact Hr.
+Qed.
+Lemma unescape_clean t : clean t = true -> unescape t = t.
+Proof. apply unescape_go_clean. Qed.
+
+Lemma clean_up c : clean_c c = true -> clean_c (up c) = true.
+Proof.
+  destruct (up_cases c) as [->|[Hr ->]]; auto. intros _. unfold clean_c, is_special, is_raw. rewrite !eqb_of_ne by lia. reflexivity.
+Qed.
+Lemma clean_low c : clean_c c = true -> clean_c (low c) = true.
+Proof.
+  destruct (low_cases c) as [->|[Hr ->]]; auto. intros _. unfold clean_c, is_special, is_raw. rewrite !eqb_of_ne by lia. reflexivity.
+Qed.
+Lemma digit_clean c : is_digit c = true -> clean_c c = true.
+Proof.
+  unfold is_digit, clean_c, is_special, is_raw. intro H. apply andb_true_iff in H. destruct H as [A B]. nsolve. rewrite !eqb_of_ne by lia. reflexivity.
+Qed.
+
+Lemma clean_esc_arg s : clean (tx s) = true -> esc_arg s = tx s.
+Proof. intro H. unfold esc_arg. destruct (sf s); auto. apply escape_clean. exact H. Qed.
+
+(* the filters of the identity theorem: everything but split (no arrays: str(list) holds quotes) and the three text functions
+   that are modelled by their flag only *)
+Definition plain_filters (f : filter) : bool := match f with FSplit _ | FOpaque _ _ => false | _ => true end.
+
+(* two values with the same clean text (the Markup flags may differ) *)
+Inductive Rv : value -> value -> Prop :=
+| RS s s' : tx s = tx s' -> clean (tx s) = true -> Rv (VS s) (VS s')
+| RNil : Rv VNil VNil
+| RNone : Rv VNone VNone
+| RInt n : Rv (VInt n) (VInt n).
+
+Lemma Rv_as_string v v' : Rv v v' -> tx (as_string v) = tx (as_string v') /\ clean (tx (as_string v)) = true.
+Proof.
+  destruct 1; simpl; auto. split; auto. apply allP_nat_to_str. apply digit_clean.
+Qed.
+Lemma Rv_py_str_of v v' : Rv v v' -> tx (py_str_of v) = tx (py_str_of v') /\ clean (tx (py_str_of v)) = true.
+Proof.
+  destruct 1; simpl; auto. split; auto. apply allP_nat_to_str. apply digit_clean.
+Qed.
+
+Lemma RS' t f f' : clean t = true -> Rv (VS {| tx := t; sf := f |}) (VS {| tx := t; sf := f' |}).
+Proof. intro. constructor; auto. Qed.
+
+Lemma tx_madd a b : clean (tx a) = true -> clean (tx b) = true -> tx (madd a b) = tx a ++ tx b.
+Proof.
+  intros Ha Hb. unfold madd. destruct (sf a); simpl; [rewrite clean_esc_arg; auto|].
+  destruct (sf b); simpl; auto. rewrite escape_clean; auto.
+Qed.
+Lemma tx_mreplace s o n : clean (tx n) = true -> tx (mreplace s o n) = py_replace (tx s) (tx o) (tx n).
+Proof. intro Hn. unfold mreplace. destruct (sf s); simpl; auto. rewrite clean_esc_arg; auto. Qed.
+Lemma tx_mjoin sep items : Forall (fun i => clean (tx i) = true) items -> tx (mjoin sep items) = join_str (tx sep) (map tx items).
+Proof.
+  intro H. unfold mjoin. destruct (sf sep); simpl; auto. f_equal.
+  induction H; simpl; auto. rewrite clean_esc_arg by assumption. f_equal. assumption.
+Qed.
+
+Section Identity.
+  Variables look look' : str -> value.
+  Hypothesis look_rel : forall x, Rv (look x) (look' x).
+
+  Lemma eval_atom_rel a : atom_ok clean a = true -> Rv (eval_atom true look a) (eval_atom false look' a).
+  Proof. destruct a; simpl; intro H; [apply RS'; assumption|apply look_rel]. Qed.
+
+  Lemma Rv_text t t' f f' : t = t' -> clean t = true -> Rv (VS {| tx := t; sf := f |}) (VS {| tx := t'; sf := f' |}).
+  Proof. intros <- H. apply RS'. exact H. Qed.
+
+  Lemma apply_filter_rel f v v' :
+    filter_ok clean plain_filters f = true -> Rv v v' ->
+    Rv (apply_filter true look f v) (apply_filter false look' f v').
+  Proof.
+    intros Hok Hv. unfold filter_ok in Hok. apply andb_true_iff in Hok. destruct Hok as [Hpf Hargs].
+    destruct (Rv_as_string _ _ Hv) as [Et Hc].
+    destruct f; try discriminate Hpf; simpl in *.
+    - (* escape *) rewrite <- Et. rewrite escape_clean, html_escape_clean by assumption. apply RS'. assumption.
+    - (* escape_once *) rewrite <- Et. rewrite !unescape_clean by assumption. rewrite html_escape_clean by assumption. apply RS'. assumption.
+    - unfold mmap; simpl. rewrite <- Et. apply Rv_text; auto. apply allP_map; auto. apply clean_up.
+    - unfold mmap; simpl. rewrite <- Et. apply Rv_text; auto. apply allP_map; auto. apply clean_low.
+    - unfold mmap; simpl. rewrite <- Et. apply Rv_text; auto. apply allP_capitalize; auto. apply clean_up. apply clean_low.
+    - unfold mmap; simpl. rewrite <- Et. apply Rv_text; auto. apply allP_strip; auto.
+    - unfold mmap; simpl. rewrite <- Et. apply Rv_text; auto. apply allP_lstrip; auto.
+    - unfold mmap; simpl. rewrite <- Et. apply Rv_text; auto. apply allP_rstrip; auto.
+    - (* append *) destruct (Rv_as_string _ _ (eval_atom_rel a Hargs)) as [Ea Ha].
+      constructor; [rewrite !tx_madd; auto; try congruence; rewrite <- ?Et, <- ?Ea; auto|].
+      rewrite tx_madd; auto. unfold clean. rewrite allP_app. unfold clean in *. rewrite Hc, Ha. reflexivity.
+    - (* prepend *) destruct (Rv_as_string _ _ (eval_atom_rel a Hargs)) as [Ea Ha].
+      constructor; [rewrite !tx_madd; auto; try congruence; rewrite <- ?Et, <- ?Ea; auto|].
+      rewrite tx_madd; auto. unfold clean. rewrite allP_app. unfold clean in *. rewrite Hc, Ha. reflexivity.
+    - (* replace *) apply andb_true_iff in Hargs. destruct Hargs as [Ho Hn].
+      destruct (Rv_as_string _ _ (eval_atom_rel old Ho)) as [Eo Hoc]. destruct (Rv_as_string _ _ (eval_atom_rel new Hn)) as [En Hnc].
+      constructor; [rewrite !tx_mreplace; try congruence; rewrite <- ?En; auto|].
+      rewrite tx_mreplace; auto. apply allP_replace; auto.
+    - (* remove *) destruct (Rv_as_string _ _ (eval_atom_rel a Hargs)) as [Ea Ha].
+      constructor; [rewrite !tx_mreplace; simpl; auto; congruence|]. rewrite tx_mreplace; simpl; auto. apply allP_replace; auto.
+    - (* slice *) destruct (Rv_py_str_of _ _ Hv) as [Ep Hp].
+      destruct Hv; simpl in *; unfold mmap; simpl;
+        try (apply Rv_text; [congruence|apply allP_slice; auto]).
+    - (* join *)
+      set (sepv := match sep with Some a => as_string (eval_atom true look a) | None => {| tx := [32]; sf := true |} end).
+      set (sepv' := match sep with Some a => as_string (eval_atom false look' a) | None => {| tx := [32]; sf := false |} end).
+      assert (Hsep : tx sepv = tx sepv' /\ clean (tx sepv) = true).
+      { unfold sepv, sepv'. destruct sep as [a|]; [apply Rv_as_string, eval_atom_rel; assumption|split; reflexivity]. }
+      destruct Hsep as [Es Hsc].
+      set (sep1 := if str_eqb (tx sepv) [32] then markup [32] else sepv).
+      assert (Hs1 : tx sep1 = tx sepv).
+      { unfold sep1. simpl. destruct (str_eqb (tx sepv) [32]) eqn:E; auto. apply str_eqb_eq in E. rewrite E. reflexivity. }
+      destruct (Rv_py_str_of _ _ Hv) as [Ep Hp].
+      assert (Hitems : map tx (match v with VL l => l | VNil => [] | _ => [py_str_of v] end)
+                       = map tx (match v' with VL l => l | VNil => [] | _ => [py_str_of v'] end)
+                       /\ Forall (fun i => clean (tx i) = true) (match v with VL l => l | VNil => [] | _ => [py_str_of v] end)
+                       /\ Forall (fun i => clean (tx i) = true) (match v' with VL l => l | VNil => [] | _ => [py_str_of v'] end)).
+      { destruct Hv; simpl in *; repeat split; auto; try congruence; constructor; auto; congruence. }
+      destruct Hitems as (Ei & Hi & Hi').
+      constructor.
+      + rewrite !tx_mjoin; auto. rewrite Hs1, Ei, Es. reflexivity.
+      + rewrite tx_mjoin; auto. rewrite Hs1. apply allP_join; auto.
+        apply Forall_forall. intros t Ht. apply in_map_iff in Ht. destruct Ht as (i & <- & Hin). rewrite Forall_forall in Hi. auto.
+    - (* first *) destruct Hv; constructor.
+    - (* last *) destruct Hv; constructor.
+    - (* default *) pose proof (eval_atom_rel d Hargs) as Hd. destruct Hv; simpl; auto; try constructor; auto.
+      rewrite <- H. destruct (tx s); auto. constructor; auto.
+    - (* size *) destruct Hv; simpl; try constructor. rewrite H. constructor.
+  Qed.
+
+  Lemma eval_expr_rel e : expr_ok clean plain_filters e = true -> Rv (eval_expr true look e) (eval_expr false look' e).
+  Proof.
+    induction e as [a|e IH f]; simpl; intro H; [apply eval_atom_rel; assumption|].
+    apply andb_true_iff in H. destruct H as [He Hf]. apply apply_filter_rel; auto.
+  Qed.
+End Identity.
+
+Lemma to_liquid_string_rel v v' : Rv v v' -> to_liquid_string true v = to_liquid_string false v' /\ clean (to_liquid_string true v) = true.
+Proof.
+  destruct 1; simpl; try (split; reflexivity).
+  - unfold out_str. rewrite clean_esc_arg by assumption. split; auto.
+  - split; auto. apply allP_nat_to_str. apply digit_clean.
+Qed.
+
+Definition Rscope (a b : list (str * value)) : Prop := Forall2 (fun p q => fst p = fst q /\ Rv (snd p) (snd q)) a b.
+Definition Rstate (s s' : state) : Prop :=
+  Forall2 Rscope (st_scopes s) (st_scopes s') /\ Rscope (st_locals s) (st_locals s') /\ Rscope (st_globals s) (st_globals s')
+  /\ st_cycle s = st_cycle s'.
+
+Definition Ropt (a b : option value) : Prop :=
+  match a, b with Some v, Some v' => Rv v v' | None, None => True | _, _ => False end.
+
+Lemma alookup_rel x a b : Rscope a b -> Ropt (alookup x a) (alookup x b).
+Proof.
+  induction 1 as [|[k v] [k' v'] ra rb [Hk Hv] Hr IH]; simpl; auto. simpl in Hk. subst k'.
+  destruct (str_eqb x k); auto.
+Qed.
+
+Lemma first_hit_rel x a b : Forall2 Rscope a b -> Ropt (first_hit x a) (first_hit x b).
+Proof.
+  induction 1 as [|sa sb ra rb Hs Hr IH]; simpl; auto.
+  pose proof (alookup_rel x _ _ Hs) as H. destruct (alookup x sa), (alookup x sb); simpl in H; try contradiction; auto.
+Qed.
+
+Lemma lookup_rel s s' x : Rstate s s' -> Rv (lookup s x) (lookup s' x).
+Proof.
+  intros (Hs & Hl & Hg & _). unfold lookup.
+  assert (H : Ropt (first_hit x (st_scopes s ++ [st_locals s; st_globals s])) (first_hit x (st_scopes s' ++ [st_locals s'; st_globals s']))).
+  { apply first_hit_rel. apply Forall2_app; auto. }
+  destruct (first_hit x (st_scopes s ++ _)), (first_hit x (st_scopes s' ++ _)); simpl in H; try contradiction; auto. constructor.
+Qed.
+
+Lemma truthy_rel v v' : Rv v v' -> truthy v = truthy v'.
+Proof. destruct 1; reflexivity. Qed.
+Lemma text_eqb_rel a a' b b' : Rv a a' -> Rv b b' -> value_text_eqb a b = value_text_eqb a' b'.
+Proof. destruct 1; destruct 1; simpl; auto; congruence. Qed.
+
+Lemma loop_items_rel v v' : Rv v v' -> Forall2 Rv (loop_items v) (loop_items v').
+Proof.
+  destruct 1; simpl; try constructor.
+  assert (Hr : Rv (VS s) (VS s')) by (constructor; auto).
+  rewrite <- H. destruct (tx s); constructor; [exact Hr|constructor].
+Qed.
+
+Definition Rres (r r' : res (str * state)) : Prop :=
+  match r, r' with
+  | Ok (o, s), Ok (o', s') => o = o' /\ clean o = true /\ Rstate s s'
+  | OutOfFuel, OutOfFuel => True
+  | _, _ => False
+  end.
+
+Lemma bind_args_rel s s' binds : Rstate s s' -> forallb (fun b => atom_ok clean (snd b)) binds = true ->
+  Rscope (bind_args true s binds) (bind_args false s' binds).
+Proof.
+  intros Hst H. unfold bind_args, Rscope. induction binds as [|[k a] r IH]; simpl in *; constructor.
+  - apply andb_true_iff in H. destruct H as [Ha _]. simpl. split; auto. apply eval_atom_rel; auto. intro; apply lookup_rel; assumption.
+  - apply IH. apply andb_true_iff in H. tauto.
+Qed.
+
+Lemma for_loop_rel (run run' : state -> res (str * state)) x :
+  (forall s s', Rstate s s' -> Rres (run s) (run' s')) ->
+  forall items items' s s', Forall2 Rv items items' -> Rstate s s' -> Rres (for_loop run x items s) (for_loop run' x items' s').
+Proof.
+  intros Hrun items items' s s' Hit. revert s s'. induction Hit as [|it it' more more' Hi Hm IH]; intros s s' Hst; simpl.
+  - split; [reflexivity|split; [reflexivity|exact Hst]].
+  - assert (Hp : Rstate (push_scope s [(x, it)]) (push_scope s' [(x, it')])).
+    { destruct Hst as (A & B & C & D). repeat split; simpl; auto. constructor; auto. constructor; [split; auto|constructor]. }
+    specialize (Hrun _ _ Hp).
+    destruct (run (push_scope s [(x, it)])) as [[o1 s1]|e|], (run' (push_scope s' [(x, it')])) as [[o1' s1']|e'|]; simpl in *; try contradiction; auto.
+    destruct Hrun as (Eo & Co & Rs).
+    assert (Hpop : Rstate (pop_scope s1) (pop_scope s1')).
+    { destruct Rs as (A & B & C & D). repeat split; simpl; auto. destruct A; simpl; auto. }
+    specialize (IH _ _ Hpop).
+    destruct (for_loop run x more (pop_scope s1)) as [[o2 s2]|e|], (for_loop run' x more' (pop_scope s1')) as [[o2' s2']|e'|]; simpl in *; try contradiction; auto.
+    destruct IH as (Eo2 & Co2 & Rs2). subst. split; [reflexivity|split; [|exact Rs2]]. unfold clean in *. rewrite allP_app, Co, Co2. reflexivity.
+Qed.
+
+(* the two interpreters run in lock step on every template without special characters in its literals *)
+Theorem exec_rel : forall fuel s s' p,
+  forallb (stmt_ok clean plain_filters) p = true -> Rstate s s' ->
+  Rres (exec true fuel s p) (exec false fuel s' p).
+Proof.
+  induction fuel as [|f IH]; intros s s' p Hp Hst; [exact I|].
+  destruct p as [|st rest]; [simpl; split; [reflexivity|split; [reflexivity|exact Hst]]|].
+  simpl in Hp. apply andb_true_iff in Hp. destruct Hp as [Hs Hrest].
+  assert (Hlook : forall x, Rv (lookup s x) (lookup s' x)) by (intro; apply lookup_rel; assumption).
+  assert (Hstep : Rres
+    (match st with
+     | SText t => Ok (t, s)
+     | SOut e => Ok (to_liquid_string true (eval true s e), s)
+     | SAssign x e => Ok ([], set_local s x (eval true s e))
+     | SCapture x body => do r <- exec true f s body; let '(out, st1) := r in Ok ([], set_local st1 x (VS {| tx := out; sf := true |}))
+     | SIf c body els =>
+         let b := match c with CTruthy a => truthy (evala true s a) | CEq a b => value_text_eqb (evala true s a) (evala true s b) end in
+         exec true f s (if b then body else els)
+     | SFor x e body => for_loop (fun s0 => exec true f s0 body) x (loop_items (eval true s e)) s
+     | SCycle args =>
+         let v := match nth_error args (Nat.modulo (st_cycle s) (length args)) with Some a => evala true s a | None => VNil end in
+         Ok (to_liquid_string true v, {| st_scopes := st_scopes s; st_locals := st_locals s; st_globals := st_globals s; st_cycle := S (st_cycle s) |})
+     | SInclude binds body => do r <- exec true f (push_scope s (bind_args true s binds)) body; let '(out, st1) := r in Ok (out, pop_scope st1)
+     | SRender binds body =>
+         do r <- exec true f {| st_scopes := [bind_args true s binds]; st_locals := []; st_globals := st_globals s; st_cycle := 0 |} body;
+         let '(out, _) := r in Ok (out, s)
+     end)
+    (match st with
+     | SText t => Ok (t, s')
+     | SOut e => Ok (to_liquid_string false (eval false s' e), s')
+     | SAssign x e => Ok ([], set_local s' x (eval false s' e))
+     | SCapture x body => do r <- exec false f s' body; let '(out, st1) := r in Ok ([], set_local st1 x (VS {| tx := out; sf := false |}))
+     | SIf c body els =>
+         let b := match c with CTruthy a => truthy (evala false s' a) | CEq a b => value_text_eqb (evala false s' a) (evala false s' b) end in
+         exec false f s' (if b then body else els)
+     | SFor x e body => for_loop (fun s0 => exec false f s0 body) x (loop_items (eval false s' e)) s'
+     | SCycle args =>
+         let v := match nth_error args (Nat.modulo (st_cycle s') (length args)) with Some a => evala false s' a | None => VNil end in
+         Ok (to_liquid_string false v, {| st_scopes := st_scopes s'; st_locals := st_locals s'; st_globals := st_globals s'; st_cycle := S (st_cycle s') |})
+     | SInclude binds body => do r <- exec false f (push_scope s' (bind_args false s' binds)) body; let '(out, st1) := r in Ok (out, pop_scope st1)
+     | SRender binds body =>
+         do r <- exec false f {| st_scopes := [bind_args false s' binds]; st_locals := []; st_globals := st_globals s'; st_cycle := 0 |} body;
+         let '(out, _) := r in Ok (out, s')
+     end)).
+  { destruct st; simpl in Hs.
+    - simpl. split; [reflexivity|split; [exact Hs|exact Hst]].
+    - destruct (to_liquid_string_rel _ _ (eval_expr_rel _ _ Hlook e Hs)) as [E C]. simpl. split; [exact E|split; [exact C|exact Hst]].
+    - simpl. split; [reflexivity|split; [reflexivity|]]. destruct Hst as (A & B & C & D). repeat split; simpl; auto.
+      constructor; auto. split; auto. apply eval_expr_rel; auto.
+    - specialize (IH s s' body Hs Hst).
+      destruct (exec true f s body) as [[o1 s1]|e|], (exec false f s' body) as [[o1' s1']|e'|]; simpl in *; try contradiction; auto.
+      destruct IH as (Eo & Co & (A & B & C & D)). subst. repeat split; simpl; auto. constructor; auto. split; auto. apply RS'. exact Co.
+    - apply andb_true_iff in Hs. destruct Hs as [Hs Hels]. apply andb_true_iff in Hs. destruct Hs as [Hc Hbody]. cbv zeta.
+      assert (Eb : match c with CTruthy a => truthy (evala true s a) | CEq a b => value_text_eqb (evala true s a) (evala true s b) end
+                 = match c with CTruthy a => truthy (evala false s' a) | CEq a b => value_text_eqb (evala false s' a) (evala false s' b) end).
+      { destruct c; simpl in Hc.
+        - apply truthy_rel. apply eval_atom_rel; auto.
+        - apply andb_true_iff in Hc. destruct Hc. apply text_eqb_rel; apply eval_atom_rel; auto. }
+      rewrite Eb. match goal with |- context [if ?b then body else els] => destruct b end; apply IH; auto.
+    - apply andb_true_iff in Hs. destruct Hs as [He Hbody].
+      apply for_loop_rel; auto.
+      + intros s0 s0' H0. apply IH; auto.
+      + apply loop_items_rel. apply eval_expr_rel; auto.
+    - cbv zeta. destruct Hst as (A & B & C & D). rewrite <- D.
+      assert (Hv : Rv (match nth_error args (Nat.modulo (st_cycle s) (length args)) with Some a => evala true s a | None => VNil end)
+                      (match nth_error args (Nat.modulo (st_cycle s) (length args)) with Some a => evala false s' a | None => VNil end)).
+      { destruct (nth_error args (Nat.modulo (st_cycle s) (length args))) eqn:En; [|constructor].
+        apply eval_atom_rel; auto. apply nth_error_In in En. rewrite forallb_forall in Hs. auto. }
+      destruct (to_liquid_string_rel _ _ Hv) as [E Cn]. simpl. repeat split; simpl; auto.
+    - apply andb_true_iff in Hs. destruct Hs as [Hb Hbody].
+      assert (Hp : Rstate (push_scope s (bind_args true s binds)) (push_scope s' (bind_args false s' binds))).
+      { pose proof (bind_args_rel _ _ binds Hst Hb). destruct Hst as (A & B & C & D). repeat split; simpl; auto. }
+      specialize (IH _ _ body Hbody Hp).
+      destruct (exec true f (push_scope s (bind_args true s binds)) body) as [[o1 s1]|e|],
+               (exec false f (push_scope s' (bind_args false s' binds)) body) as [[o1' s1']|e'|]; simpl in *; try contradiction; auto.
+      destruct IH as (Eo & Co & (A & B & C & D)). repeat split; simpl; auto. destruct A; simpl; auto.
+    - apply andb_true_iff in Hs. destruct Hs as [Hb Hbody].
+      assert (Hp : Rstate {| st_scopes := [bind_args true s binds]; st_locals := []; st_globals := st_globals s; st_cycle := 0 |}
+                          {| st_scopes := [bind_args false s' binds]; st_locals := []; st_globals := st_globals s'; st_cycle := 0 |}).
+      { pose proof (bind_args_rel _ _ binds Hst Hb). destruct Hst as (A & B & C & D). repeat split; simpl; auto. constructor. }
+      specialize (IH _ _ body Hbody Hp).
+      match goal with |- Rres (do r <- ?a; _) (do r <- ?b; _) => destruct a as [[o1 s1]|e|], b as [[o1' s1']|e'|] end; simpl in *; try contradiction; auto.
+      destruct IH as (Eo & Co & _). repeat split; auto. }
+  cbn [exec].
+  match goal with |- Rres (do r <- ?a; _) (do r <- ?b; _) => destruct a as [[o1 s1]|e|], b as [[o1' s1']|e'|] end; simpl in *; try contradiction; auto.
+  destruct Hstep as (Eo & Co & Rs). specialize (IH _ _ rest Hrest Rs).
+  destruct (exec true f s1 rest) as [[o2 s2]|e|], (exec false f s1' rest) as [[o2' s2']|e'|]; simpl in *; try contradiction; auto.
+  destruct IH as (Eo2 & Co2 & Rs2). subst. split; [reflexivity|split; [|exact Rs2]]. unfold clean in *. rewrite allP_app, Co, Co2. reflexivity.
+Qed.
+
+(* C05, third clause: a template whose literals hold no special character, rendered with data strings that hold none, gives
+   the same text with autoescape on and off (split and the three flag-only text functions excluded) *)
+Definition clean_data (data : list (str * value)) : bool :=
+  forallb (fun kv => match snd kv with VS s => clean (tx s) | VNil | VNone | VInt _ => true | VL _ => false end) data.
+
+Lemma Rscope_refl data : clean_data data = true -> Rscope data data.
+Proof.
+  unfold clean_data, Rscope. induction data as [|[k v] r IH]; simpl; intro H; constructor.
+  - apply andb_true_iff in H. destruct H as [Hv _]. simpl in *. split; auto. destruct v; try discriminate; constructor; auto.
+  - apply IH. apply andb_true_iff in H. tauto.
+Qed.
+
+Theorem identity_without_specials : forall fuel data p,
+  forallb (stmt_ok clean plain_filters) p = true -> clean_data data = true ->
+  run_escape {| e_ae := true; e_data := data; e_prog := p |} = run_escape {| e_ae := false; e_data := data; e_prog := p |}.
+Proof.
+  intros _ data p Hp Hd. unfold run_escape. simpl.
+  pose proof (exec_rel 200 {| st_scopes := []; st_locals := []; st_globals := data; st_cycle := 0 |}
+                           {| st_scopes := []; st_locals := []; st_globals := data; st_cycle := 0 |} p Hp) as H.
+  assert (Hst : Rstate {| st_scopes := []; st_locals := []; st_globals := data; st_cycle := 0 |}
+                       {| st_scopes := []; st_locals := []; st_globals := data; st_cycle := 0 |}).
+  { repeat split; simpl; try constructor. apply Rscope_refl. assumption. }
+  specialize (H Hst).
+  destruct (exec true 200 _ p) as [[o s]|e|], (exec false 200 _ p) as [[o' s']|e'|]; simpl in *; try contradiction; auto.
+  destruct H as (-> & _). reflexivity.
+Qed.
